@@ -26,6 +26,8 @@ CLAIMS = {
  "C05": ("proof", "After every contracted crdIpam operation, on success and on failure, memory and the ghost Store agree on owner, policy, node and uid of every allocated IP and no free IP has an object (synced), relative to the assumed store wrappers with nondeterministic failure.",
          "Crash points are not enumerated; ConfigurePool (reload) and the multi-IP allocation are not yet part of this claim."),
  "C06": ("proof", "AllocateInSubnet hands out only an IP that was free and whose pool lists the node subnet, and returns ErrNoEnoughIP only if no free IP's pool lists it.", "Filter side (NodeSubnetsByIPRanges, plugin filter) not yet under contract."),
+ "C08": ("proof", "AllocateInSubnetsAndIPRange proved against the property statement for every list of well-formed requested ranges and every table state: on success exactly one IP per range, the i-th inside the i-th range (over the entry state), free and routable from the node subnet before the call, pairwise distinct, in request order, published under the key, every other entry untouched; on any failure the tables are unchanged and, with at most one failing API call, the store is unchanged (rollback loop invariant). The real walkIPRanges and closure bodies are inlined; its loops carry invariants given on the caller.",
+         "Client (API server) behaviour assumed as in pkg/ipam/client/.../zz_contracts_verif.go; net.IP.String modelled by uninterpreted functions with the stated axioms (4-byte text depends on the value only, ipv4val inverse). Plugin-level allocateIP (annotation order) not yet under contract."),
  "C09": ("proof", "Allocation contracts hand out only entries of the unallocated table; handleFIPAssign moves only a free IP to allocated and refuses an allocated one.", "ConfigurePool (reload) not yet under contract; watch timing not decided."),
 }
 
